@@ -207,16 +207,20 @@ func init() {
 			assumptions: []string{"when DecoderBuffer may answer ErrFullBuffer is not asserted (capacity is soft), only that a refused operation changed nothing; acceptance duties belong to C07"},
 			mandatory:   []string{"matches_written", "overlapping_matches", "offset==WindowSize", "bytes_read", "valid_blocks_with_sequences", "steps_with_shrink", "resets", "reinits", "flushes_verified", "writeto_with_failing_writer", "calls_with_writer_fault"},
 			expected:    []string{"reinit_raised_buffersize", "buffer_refused_full"}},
-		owned: owned("read-bytes", "append-wrong", "window-lost", "struct-invariant", "valid-offset-rejected", "unexpected-error", "flush-incomplete", "writer-prefix", "panic", "oversized-accepted"),
+		owned: owned("read-bytes", "append-wrong", "window-lost", "struct-invariant", "valid-offset-rejected", "unexpected-error", "flush-incomplete", "writer-prefix", "panic", "oversized-accepted", "stale-writer-error"),
 		kinds: func(tier string) []core.Segment {
 			m := tierScale(tier, 60)
 			return []core.Segment{{Kind: "corpus:buffer", N: 1640}, {Kind: "buffer", N: 12000 * m}, {Kind: "corpus:decoder", N: 820}, {Kind: "decoder", N: 8000 * m},
-				{Kind: "big:buffer", N: 42 * m, Chunk: 3}, {Kind: "big:decoder", N: 42 * m, Chunk: 3}, {Kind: "faulty:decoder", N: 5000 * m}}
+				{Kind: "big:buffer", N: 42 * m, Chunk: 3}, {Kind: "big:decoder", N: 42 * m, Chunk: 3}, {Kind: "faulty:decoder", N: 5000 * m},
+				{Kind: "runs:buffer", N: 2000 * m}, {Kind: "runs:decoder", N: 1500 * m}}
 		},
 		genC: func(r *rand.Rand, kind string, idx int64, tier string) DCase {
 			class, sut := splitKind(kind)
 			if class == "big" {
 				return bigDCase(r, sut, idx, 0)
+			}
+			if class == "runs" {
+				return runsDCase(r, sut)
 			}
 			w, b := geometry(r, idx)
 			g := &DGen{SUT: sut, W: w, B: b, N: 40 + r.Intn(40), MaxItem: 2 + r.Intn(2*b), BigItems: r.Intn(3) == 0}
@@ -470,11 +474,61 @@ func wrapDCase(r *rand.Rand, sut string, idx int64) DCase {
 	return DCase{WS: w, BS: b, SUT: sut, Ops: ops}
 }
 
+// runsDCase: runs of one byte (0x00 - the value of fresh memory -, 0xff, a
+// letter) written as matches with offset 1 and lengths of 64 bytes up to
+// BufferSize-WindowSize, separated by literals of other values, on buffers of
+// a few hundred bytes that wrap many times: the area a run is expanded into
+// has held other bytes before.
+func runsDCase(r *rand.Rand, sut string) DCase {
+	w := 8 + r.Intn(300)
+	b := w + 64 + r.Intn(600)
+	free := b - w
+	var ops []DOp
+	for len(ops) < 50 {
+		c := []byte{0x00, 0x00, 0xff, 'a', byte(r.Intn(256))}[r.Intn(5)]
+		lit := make([]byte, 1+r.Intn(40))
+		for i := range lit {
+			lit[i] = byte(1 + r.Intn(255))
+		}
+		lit[len(lit)-1] = c
+		m := 64 + r.Intn(free-63)
+		if r.Intn(3) == 0 {
+			// literals and run in one block
+			if len(lit)+m > free {
+				m = free - len(lit)
+			}
+			ops = append(ops, DOp{K: "block", Data: lit, Seqs: []DSeq{{L: uint32(len(lit)), M: uint32(m), OK: 1}}})
+		} else {
+			ops = append(ops, DOp{K: "write", Data: lit})
+			if sut == "buffer" {
+				ops = append(ops, DOp{K: "match", Seqs: []DSeq{{M: uint32(m), OK: 1}}})
+			} else {
+				ops = append(ops, DOp{K: "block", Seqs: []DSeq{{M: uint32(m), OK: 1}}})
+			}
+		}
+		if sut == "buffer" {
+			ops = append(ops, DOp{K: "read", N: r.Intn(b + 1)})
+			if r.Intn(4) == 0 {
+				ops = append(ops, DOp{K: "writeto"})
+			}
+		} else if r.Intn(4) == 0 {
+			ops = append(ops, DOp{K: "flush"})
+		}
+		if r.Intn(12) == 0 {
+			ops = append(ops, DOp{K: "reset"})
+		}
+	}
+	if sut == "decoder" {
+		ops = append(ops, DOp{K: "flush"})
+	}
+	return DCase{WS: w, BS: b, SUT: sut, Ops: ops}
+}
+
 // genWStep draws a fault step: bytes accepted and the error value (the
 // harness' own error, io.ErrShortWrite as bufio.Writer reports it, other
 // standard errors).
 func genWStep(r *rand.Rand) WStep {
-	return WStep{Acc: r.Intn(5), Fail: true, E: []int{0, 0, 0, 0, 1, 1, 1, 2, 3, 1}[r.Intn(10)]}
+	return WStep{Acc: r.Intn(5), Fail: true, E: []int{0, 0, 0, 4, 1, 1, 1, 2, 3, 4, 5, 0}[r.Intn(12)]}
 }
 
 // bigDCase generates a short history on a big geometry: items sized around
@@ -561,7 +615,7 @@ func (p *c18prop) Gen(kind string, idx int64, seed int64, tier string) core.Case
 	return core.MkCase(p.id, kind, idx, seed, tier, dc)
 }
 
-var c18owned = owned("writer-prefix", "wrong-error", "flush-incomplete", "panic", "spin")
+var c18owned = owned("writer-prefix", "wrong-error", "flush-incomplete", "panic", "spin", "stale-writer-error")
 
 func (p *c18prop) Run(c *core.Case, st *core.Stats) []core.Violation {
 	dc, err := decode[DCase](c)
@@ -619,7 +673,7 @@ func (p *c18prop) Run(c *core.Case, st *core.Stats) []core.Violation {
 		n = 40
 	}
 	// the error value of the enumerated faults is fixed per stream
-	ek := []int{0, 1, 0, 2, 1, 3}[int(c.Idx)%6]
+	ek := []int{0, 1, 4, 2, 1, 3, 0, 4, 5}[int(c.Idx)%9]
 	for i := 0; i < n; i++ {
 		for acc := 0; acc <= 4; acc++ {
 			fault := map[int]WStep{i: {Acc: acc, Fail: true, E: ek}}
@@ -634,7 +688,7 @@ func (p *c18prop) Run(c *core.Case, st *core.Stats) []core.Violation {
 		for i := 0; i < n; i++ {
 			for j := i + 1; j < n+2; j++ {
 				for _, acc := range [][2]int{{0, 0}, {3, 1}, {2, 4}, {1, 3}} {
-					fault := map[int]WStep{i: {Acc: acc[0], Fail: true, E: ek}, j: {Acc: acc[1], Fail: true, E: (ek + 1) % 4}}
+					fault := map[int]WStep{i: {Acc: acc[0], Fail: true, E: ek}, j: {Acc: acc[1], Fail: true, E: (ek + 1) % 6}}
 					st.Inc("fault_plans")
 					st.Inc("double_fault_placements")
 					if f, _ := run(fault); f != nil {
